@@ -18,7 +18,7 @@ theorem txAcceptedAux_RJ {K : Keys} {W : Tx → Prop} {rank : TxId → Nat} (U :
     RJ K (txAcceptedAux K mf fuel s recs d) := by
   intro fuel
   induction fuel with
-  | zero => intro s recs d _ h; exact h
+  | zero => intro s recs d _ h; exact h.of_shrink (Shrink.of_eq rfl rfl rfl rfl rfl rfl)
   | succ n ih =>
     intro s recs d hI h
     unfold txAcceptedAux
@@ -109,6 +109,20 @@ theorem submitNet_RJ {K : Keys} {W : Tx → Prop} {rank : TxId → Nat} (U : Uni
     · exact txAccepted_RJ U mf _ _ hI2 h2
     · exact h2
 
+/-- LoadRawTx's "make as own": the reject side is untouched and no pool key is new -/
+theorem markLocal_shrink (K : Keys) (s : State) (id : TxId) : Shrink s (markLocal K s id) := by
+  unfold markLocal
+  split
+  · rename_i r hr
+    refine ⟨⟨rfl, rfl, rfl, rfl, rfl⟩, ?_⟩
+    intro b x hx
+    by_cases e : b = K.bidx id
+    · exact ⟨r, by rw [e]; exact hr⟩
+    · rw [show ({ s with pool := s.pool.set (K.bidx id) { r with loc := true } } : State).pool =
+        s.pool.set (K.bidx id) { r with loc := true } from rfl, AList.get?_set_other _ _ _ _ e] at hx
+      exact ⟨x, hx⟩
+  · exact ⟨RejSame.refl s, fun b x hx => ⟨x, hx⟩⟩
+
 theorem submitLocal_RJ {K : Keys} {W : Tx → Prop} {rank : TxId → Nat} (U : Univ K W rank) (mf : Nat) (s : State)
     (t : Tx) (hI : InvR K W s) (h : RJ K s) (ht : W t) : RJ K (submitLocal K mf s t).2 := by
   unfold submitLocal
@@ -116,7 +130,7 @@ theorem submitLocal_RJ {K : Keys} {W : Tx → Prop} {rank : TxId → Nat} (U : U
   obtain ⟨h1, _, _⟩ := rejDeleteByIdx_RJ h (K.bidx t.id)
   have hI1 := InvR_of_frame hI (rejDeleteByIdx_frame K W s (K.bidx t.id))
   split
-  · exact h1
+  · exact h1.of_shrink (markLocal_shrink K _ t.id)
   · rename_i hn
     obtain ⟨hp, hf⟩ := needThisTx_zero K _ t.id hn
     have h2 := processTx_RJ mf _ t { trusted := true, loc := true } hI1 h1 hf hp
